@@ -33,7 +33,7 @@ def build(sc, seed):
 
     rng = np.random.default_rng(seed)
     fam = sc["fam"]
-    dx = [1.0, 0.5, 2.0][seed % 3]
+    dx = [1.0, 0.5, 2.0, 2.0**-13, 2.0**-20, 2.0**10][seed % 6]   # spacings from 1e-6 to 1e3: lengths are only a unit
     ratio = RATIO[sc["ratio"]]
     R = float(sc["radius"]) * dx
     w = float(sc["width"]) * dx
